@@ -3,7 +3,10 @@
 package drive
 
 import (
+	"bufio"
 	"encoding/json"
+	"os"
+	"sync"
 	"fmt"
 	"net/url"
 
@@ -108,6 +111,53 @@ type Opt struct {
 	DocsKey string            // rendered into the case key when Docs is set
 }
 
+var (
+	dumpMu sync.Mutex
+	dumpW  *bufio.Writer
+	dumpN  int
+)
+
+// dump writes one oracle record for the Python cross-check (crosscheck/py_oracle.py).
+func dump(text string, o Opt, pool []Inst, verdicts []any) {
+	path := os.Getenv("VERIF_DUMP_ORACLE")
+	if path == "" {
+		return
+	}
+	dumpMu.Lock()
+	defer dumpMu.Unlock()
+	if dumpW == nil {
+		f, err := os.Create(path)
+		if err != nil {
+			return
+		}
+		dumpW = bufio.NewWriterSize(f, 1<<20)
+	}
+	insts := make([]string, len(pool))
+	for i, in := range pool {
+		insts[i] = in.Text
+	}
+	d := "2020-12"
+	if o.Draft == ref.D07 {
+		d = "draft-07"
+	}
+	b, _ := json.Marshal(map[string]any{"root": text, "base": o.BaseURI, "docs": o.Docs, "draft": d, "insts": insts, "r1": verdicts})
+	dumpW.Write(b)
+	dumpW.WriteByte('\n')
+	dumpN++
+	if dumpN%1000 == 0 {
+		dumpW.Flush()
+	}
+}
+
+// FlushDump flushes the cross-check dump, if any.
+func FlushDump() {
+	dumpMu.Lock()
+	defer dumpMu.Unlock()
+	if dumpW != nil {
+		dumpW.Flush()
+	}
+}
+
 // Against executes one schema text on the implementation and on R1 over the
 // pool and reports every disagreement. It returns the number of pairs compared.
 func Against(r *ev.Run, j par.Journal, text string, pool []Inst, o Opt) int {
@@ -140,6 +190,11 @@ func Against(r *ev.Run, j par.Journal, text string, pool []Inst, o Opt) int {
 		return 1
 	}
 	n := 0
+	var dumped []any
+	wantDump := os.Getenv("VERIF_DUMP_ORACLE") != ""
+	if wantDump {
+		defer func() { dump(text, o, pool, dumped) }()
+	}
 	for _, in := range pool {
 		key := o.Prefix + ktext + " ⊢ " + in.Text
 		if r.OnlyKey != "" && r.OnlyKey != key {
@@ -148,7 +203,13 @@ func Against(r *ev.Run, j par.Journal, text string, pool []Inst, o Opt) int {
 		want := u.Validate(in.Val)
 		if want.Undefined || want.Loop || want.Err != nil {
 			r.Add("oracle_no_opinion", 1)
+			if wantDump {
+				dumped = append(dumped, nil)
+			}
 			continue
+		}
+		if wantDump {
+			dumped = append(dumped, want.Valid)
 		}
 		got, p := Verdict(rs, in.Plain)
 		n++
